@@ -405,6 +405,13 @@ def fixed_checks(rep):
             rep.violation({"clause": "term_name_identity", "pow_issue": False, "site": "LazyCall.__str__"}, {"a": a, "b": b, "names": [list(da.common.terms) if sa == "ok" else sa, list(db.common.terms) if sb == "ok" else sb], "want_same": same})
         if sa == "ok" and "'a'" in a and "'a'" not in list(da.common.terms)[0]:
             rep.violation({"clause": "quote_style_not_preserved", "pow_issue": False}, {"a": a, "name": list(da.common.terms)})
+    # different calls written in one formula are different terms (two columns)
+    for a, b in (("g(x, k=1)", "g(x, k=2)"), ("g(x, 1)", "g(x, 2)"), ("g(x, 'a')", "g(x, 'b')"), ("g(x)", "g(z)"), ("g(x + 1)", "g(x + 2)"),
+                 ("g(x, k=1)", "g(x, j=1)"), ("g(x, k='a')", 'g(x, k="a")'), ("g(x, k=z)", "g(x, k=x)"), ("g(x, 1, k=2)", "g(x, 1, k=3)"), ("g(np.exp(x))", "g(np.log(x))")):
+        st, dm = design.build(f"y ~ 0 + {a} + {b}", df, extra_namespace=ns)
+        rep.cov["evaluations"] += 1
+        if st != "ok" or len(dm.common.terms) != 2 or np.asarray(dm.common).shape[1] != 2:
+            rep.violation({"clause": "different_calls_are_one_term", "pow_issue": False, "site": "LazyCall.__eq__ / __hash__"}, {"formula": f"y ~ 0 + {a} + {b}", "status": st, "terms": list(dm.common.terms) if st == "ok" else str(dm)[:120]})
     # {expr} is exactly I(expr)
     for e in ("x + 1", "x * z", "(x + z) / 2", "x ** 2", "x - z * 3"):
         s1, d1 = design.build("y ~ 0 + {" + e + "}", df)
